@@ -655,7 +655,16 @@ def map_reset_pair(ctx):
                     return None
                 sides = set(side_of(l) for l in minuend) - {None}
                 lb = c2.line
-                if sides == {1, 2}:
+                # the reset must act on the value that already contains their side: merge first, then reset
+                tv = c2.args[0].val
+                while tv[0] in ('lv', 'at'):
+                    tv = tv[3] if tv[0] == 'lv' else tv[2]
+                after_merge = tv[0] == 'post' and tv[2] == 0 and is_call(tv[1], 'merge') and len(tv[1][2]) == 2 \
+                    and elem_value_of(tv[1][2][1]) is not None and param_path(elem_value_of(tv[1][2][1])[0]) \
+                    and param_path(elem_value_of(tv[1][2][1])[0])[0] == 2
+                if sides == {1, 2} and not after_merge:
+                    both_msg = 'the nested value of an entry present on both sides is reset before their value is merged into it: what the reset was meant to delete comes back with the merge'
+                elif sides == {1, 2}:
                     seen_b = True
                 else:
                     both_msg = 'the dots deleted from an entry present on both sides are computed from %s only (side %s): what the other side had under this key and we removed is not reset' % (fmt_c(e[1]) if e[0] == 'minus' else fmt_c(e), sorted(sides))
